@@ -39,14 +39,15 @@ MAX_PATH_LEN = 12
 
 # (cfg, max number of paths replayed (None = whole cover))
 CFG = {
-    "quick": [("RtCrossQuick.cfg", 1700), ("RtSingleSet.cfg", 1500), ("RtPairsQuick.cfg", 1900),
-              ("RtOptQuick.cfg", 300)],
+    "quick": [("RtCrossQuick.cfg", 1600), ("RtSingleSet.cfg", 1300), ("RtPairsQuick.cfg", 1900),
+              ("RtOptQuick.cfg", 250), ("RtEditQuick.cfg", 250)],
     "thorough": [("RtCrossSet.cfg", 14000), ("RtSingleSet.cfg", None), ("RtPairs.cfg", 13000),
-                 ("RtPairsDomain.cfg", 12000), ("RtTriples.cfg", 6000), ("RtOptSet.cfg", 6000)],
+                 ("RtPairsDomain.cfg", 12000), ("RtTriples.cfg", 6000), ("RtOptSet.cfg", 6000),
+                 ("RtEditSet.cfg", 5000)],
 }
-IDEAL = {"quick": ["RtIdealSingleSet.cfg", "RtIdealPairsQuick.cfg", "RtIdealOptQuick.cfg"],
+IDEAL = {"quick": ["RtIdealSingleSet.cfg", "RtIdealPairsQuick.cfg", "RtIdealOptQuick.cfg", "RtIdealEditQuick.cfg"],
          "thorough": ["RtIdealCrossSet.cfg", "RtIdealSingleSet.cfg", "RtIdealPairs.cfg", "RtIdealPairsDomain.cfg",
-                      "RtIdealTriples.cfg", "RtIdealOptSet.cfg"]}
+                      "RtIdealTriples.cfg", "RtIdealOptSet.cfg", "RtIdealEditSet.cfg"]}
 # deviation alone => NoViolation must fail (negative controls, vacuity of the invariants)
 NEGATIVE = {
     "quick": ["EmptyStrAsNone", "InfTextAsFloat", "UuidTextAsId", "NoneMemberAsText", "IsValueFlipOnNone",
@@ -111,11 +112,30 @@ def fixture(big=False):
             ents[tok].property_group_type = "Multi-element"
     uids = {k: v.uid for k, v in ents.items()}
     ws.close()
-    fx = {"path": path, "ents": ents, "uids": uids, "name": os.path.basename(path)}
+    fx = {"path": path, "ents": ents, "uids": uids, "name": os.path.basename(path), "edited": False,
+          "names": {k: v.name for k, v in ents.items()}}
     for stale in [k for k in _FIX if k[0] != base]:
         del _FIX[stale]
     _FIX[key] = fx
     return fx
+
+
+EDITED = " (edited)"
+
+
+def edit_project(fx, edited):
+    """The project file is edited through another handle: every object, group and data is renamed (property group
+    names are not persisted by geoh5py, they are left alone)."""
+    from geoh5py import Workspace
+    if fx["edited"] == edited:
+        return
+    with Workspace(fx["path"], mode="r+") as ws:
+        for tok, uid in fx["uids"].items():
+            if tok.startswith("pg"):
+                continue
+            ent = ws.get_entity(uid)[0]
+            ent.name = fx["names"][tok] + (EDITED if edited else "")
+    fx["edited"] = edited
 
 
 # ------------------------------------------------------------------ tokens -> concrete Python values
@@ -237,9 +257,10 @@ def same_tok(tok, got, kind, reps, fx, on_disk=False):
         return type(got) is str and _as_uuid(got) == uid
     if cls == "Id":
         return isinstance(got, uuidlib.UUID) and got == uid
-    if cls == "Ent":
+    if cls in ("Ent", "EntB"):   # EntB = the entity of the edited project
+        name = fx["names"][ent] + (EDITED if cls == "EntB" and not ent.startswith("pg") else "")
         return not isinstance(got, (uuidlib.UUID, str)) and getattr(got, "uid", None) == uid and \
-            type(got).__name__ == type(fx["ents"][ent]).__name__
+            type(got).__name__ == type(fx["ents"][ent]).__name__ and getattr(got, "name", None) == name
     raise MachineryError(f"token {tok} cannot be compared")
 
 
@@ -425,6 +446,7 @@ def _replay(item):
         case["steps"] = item["steps"][:upto + 1]
         viol.append({"signature": sig, "summary": msg, "case": case})
 
+    edit_project(fx, False)
     for stale in ("notes.geoh5", fx["name"]):
         if os.path.exists(stale):
             os.remove(stale)
@@ -455,6 +477,10 @@ def _replay(item):
                 new = InputFile.read_ui_json(path, validate=validate, **{k: dict(v) for k, v in options.items()})
                 _ = new.data
                 infile = new
+            elif act == "Assign":
+                infile.data = {key: dict_mapper(val, [entity2uuid]) for key, val in dict(infile.data).items()}
+            elif act == "Edit":
+                edit_project(fx, True)
             elif act == "Demote":
                 obs = InputFile.demote(dict(infile.data))
             elif act == "Promote":
@@ -659,7 +685,7 @@ def run(tier, seed):
         if "NoViolation" not in res["violated"]:
             raise MachineryError(f"negative control {neg_cfg(dev)}: NoViolation should fail, TLC says {res['violated']}")
         neg[dev] = "NoViolation violated"
-    for need in ("Load", "Write", "Read", "SetValue", "Demote", "Promote"):
+    for need in ("Load", "Write", "Read", "SetValue", "Demote", "Promote", "Assign", "Edit"):
         if acts[need] < 20:
             raise MachineryError(f"vacuous coverage: action {need} replayed only {acts[need]} times")
     if replayed < 500:
